@@ -79,3 +79,12 @@ Fixpoint no_stray_backslash (s : str) (d : nat) : bool :=
 Definition name_sep (c : char) : bool :=
   is_space c || N.eqb c c_tilde || N.eqb c c_bslash || N.eqb c c_comma.
 Definition content (s : str) : str := filter (fun c => negb (name_sep c)) s.
+
+(* ---- no whitespace at brace level 0: all characters of [s] met at brace level 0 (starting at level d)
+        are not whitespace ---- *)
+Definition nospace (c : char) : bool := negb (is_space c).
+Fixpoint l0ok (s : str) (d : nat) : bool :=
+  match s with
+  | [] => true
+  | c :: t => (match d with O => nospace c | _ => true end) && l0ok t (bl_step d c)
+  end.
